@@ -63,6 +63,7 @@ func (o cacheOp) String() string {
 }
 
 func suiteC20Hist(cfg Config, res *Result) {
+	defer c20ImportFresh(res)
 	defer c20RenderFile(res)
 	defer c20DefaultSet(res)
 	res.Rule = "random histories (<= 20 ops) over FromCache(n), CleanCache(), CleanCache(n..), Debug on/off, write/delete a file (incl. content that does not compile) on 3 names (one spelled two ways: a.tpl and ./a.tpl) with a counting in-memory loader; compared with the Lean cache model: identity classes of the returned templates (pointer equality), errors, and the loader's Get log; direct oracle: same pointer for the same name between cleans with Debug off, one fetch per miss, a name covered by a CleanCache (whatever Debug says at that moment) is fetched again at its next lookup; a second set sharing the loader is never affected; non-trivial = history with >= 2 FromCache of one name; distinct by history"
